@@ -8,7 +8,11 @@ use crate::lexicon::Lexicon;
 pub mod c01;
 pub mod c04;
 pub mod c05;
+pub mod c06;
+pub mod c07;
 pub mod c08;
+pub mod c09;
+pub mod c15;
 pub mod c16;
 
 pub struct LangSet {
@@ -40,6 +44,10 @@ pub fn run(ctx: &Ctx) -> Outcome {
         "C04" => c04::run(ctx),
         "C05" => c05::run(ctx),
         "C08" => c08::run(ctx),
+        "C06" => c06::run(ctx),
+        "C07" => c07::run(ctx),
+        "C09" => c09::run(ctx),
+        "C15" => c15::run(ctx),
         "C16" => c16::run(ctx),
         other => {
             println!("ERROR unknown or unbuilt property {}", other);
@@ -55,6 +63,10 @@ pub fn replay(ctx: &Ctx, case: &J) -> Vec<String> {
         "C04" => c04::replay(case),
         "C05" => c05::replay(case),
         "C08" => c08::replay(case),
+        "C06" => c06::replay(case),
+        "C07" => c07::replay(case),
+        "C09" => c09::replay(case),
+        "C15" => c15::replay(case),
         "C16" => c16::replay(case),
         other => vec![format!("replay not available for {}", other)],
     }
